@@ -10,7 +10,8 @@ import smtq
 
 def subharnesses(tier):
     return [('rulefile-lemmas', {'engine': 'custom', 'what': 'rulefile'}),
-            ('base62-lemmas', {'engine': 'custom', 'what': 'basen'})]
+            ('base62-lemmas', {'engine': 'custom', 'what': 'basen'}),
+            ('uniqueid-boundaries', {'engine': 'custom', 'what': 'uniqueid'})]
 
 
 def _templates():
@@ -92,7 +93,91 @@ DEFAULTS = {'proto': 'tcp', 'src_ip': '1.2.3.4', 'src_port': '10',
             'new_port': '30'}
 
 
+def _uniqueid(tier):
+    """The real gen_uniqueid / eventfile_unique_name / app_unique_id /
+    app_name chain at the seeds where the number of base-62 digits changes
+    (62^(k-1) - 1, 62^(k-1), 62^k - 1 for k = 1..13, capped at 77 bits) and at
+    seeds the solver picks for each digit count: the id is always 13
+    characters of the alphabet and decodes to what was written.  os.stat of
+    the event file is a shim that yields the seed."""
+    import os
+    import string
+    from treadmill import appcfg
+    t0 = time.monotonic()
+    res = {'completed': 0, 'ignored': 0, 'unknown': 0, 'timeouts': 0,
+           'exhausted': True, 'violation': None, 'known': {}, 'reached': {},
+           'samples': [], 'decisions': 0, 'queries': 0, 'validated': 0,
+           'error': None}
+    numerals = string.digits + string.ascii_lowercase + string.ascii_uppercase
+    seeds = set()
+    for k in range(1, 14):
+        for v in (62 ** (k - 1) - 1, 62 ** (k - 1), 62 ** k - 1):
+            if 0 <= v < 2 ** 77:
+                seeds.add(v)
+    seeds |= {0, 2 ** 77 - 1, 2 ** 64, 2 ** 64 - 1}
+    # one more seed per digit count from the solver (62^(k-1) <= n < 62^k,
+    # low 13 bits forced to differ from the boundary values)
+    for k in range(1, 14):
+        sol = z3.Solver()
+        n = z3.Int('n')
+        sol.add(n >= 62 ** (k - 1) if k > 1 else n >= 0, n < 62 ** k,
+                n < 2 ** 77, n % 8192 == (k * 977) % 8192 if k > 3
+                else n >= 0)
+        res['queries'] += 1
+        if sol.check() == z3.sat:
+            seeds.add(sol.model()[n].as_long())
+    inst = 'proid.app#0000000123'
+    iid = 123
+
+    class _Os:
+        seed = 0
+
+        def __getattr__(self, k):
+            return getattr(os, k)
+
+        def stat(self, path, *a, **kw):
+            # seed = (ctime_us << 64) + (inode ^ (instance << 31)), 77 bits
+            low = _Os.seed & (2 ** 64 - 1)
+            high = _Os.seed >> 64
+
+            class _St:
+                st_ctime = high / 10.0 ** 6
+                st_ino = low ^ ((iid << 31) & (2 ** 64 - 1))
+            return _St()
+    real_os = appcfg.os
+    appcfg.os = _Os()
+    try:
+        for sd in sorted(seeds):
+            _Os.seed = sd
+            path = '/cache/' + inst
+            uid = appcfg.gen_uniqueid(path)
+            name = appcfg.eventfile_unique_name(path)
+            ok = (len(uid) == 13 and all(c in numerals for c in uid) and
+                  appcfg.app_unique_id(name) == uid and
+                  appcfg.app_name(name) == inst and name.endswith(uid))
+            res['completed'] += 1
+            res['validated'] += 1
+            if not ok:
+                res['violation'] = {
+                    'label': 'C15:unique_id_not_13_characters_or_not_decoded',
+                    'witness': {'seed': sd, 'uniqueid': uid,
+                                'unique_name': name,
+                                'decoded_id': appcfg.app_unique_id(name)},
+                    'info': None, 'trace': []}
+                res['custom_replayed'] = True
+                break
+    finally:
+        appcfg.os = real_os
+    res['reached'] = {'encoded': res['completed']}
+    res['wall_s'] = round(time.monotonic() - t0, 2)
+    return res
+
+
 def run_custom(name, params, tier):
+    if params.get('what') == 'uniqueid':
+        r = _uniqueid(tier)
+        r['params'] = params
+        return r
     if params.get('what') == 'basen':
         r = _basen(tier)
         r['params'] = params
